@@ -54,7 +54,7 @@ func g4Cuts(rt *rapid.T, n, hdrEnd int) ([]int, string) {
 	if n == 0 {
 		return nil, "empty"
 	}
-	mode := rapid.SampledFrom([]string{"whole", "bytes-then-rest", "random", "at-header", "inside-header", "tiny"}).Draw(rt, "split")
+	mode := rapid.SampledFrom([]string{"whole", "bytes-then-rest", "random", "at-header", "near-header", "inside-header", "tiny"}).Draw(rt, "split")
 	var cuts []int
 	switch mode {
 	case "whole":
@@ -85,6 +85,14 @@ func g4Cuts(rt *rapid.T, n, hdrEnd int) ([]int, string) {
 			cuts = []int{hdrEnd, n - hdrEnd}
 		} else {
 			cuts = []int{n}
+		}
+	case "near-header":
+		// a write that ends a few bytes before / after the end of the header
+		p := hdrEnd + rapid.IntRange(-3, 3).Draw(rt, "delta")
+		if p <= 0 || p >= n {
+			cuts = []int{n}
+		} else {
+			cuts = []int{p, n - p}
 		}
 	case "inside-header":
 		p := 1
